@@ -15,7 +15,7 @@ CLAIM = dict(
               'CrossHair symbolic execution of the block de-interleave, frame counting, TIF block walk and X-axis arithmetic',
     text='Bounded symbolic checking: bytes_to_float and gen_floats are translated from source and proved equal to the IBM single-precision '
          'value (and to ISINGL) on every 4-byte pattern; the channel-major de-interleave, frame count and computed X axis are executed '
-         'symbolically by CrossHair for 1..3 channels, 1..2 data blocks of 1..3 frames with symbolic payload bytes and symbolic start/stop/spacing.',
+         'symbolically by CrossHair for 1..3 channels, 1..2 data blocks of 1..3 frames with symbolic payload bytes and symbolic start/stop/spacing; whole TIF-marked files of 1..3 log passes, terminated or ending with the medium.',
     note='Trusted: z3, CrossHair, py2smt translator (validated per run), spec/repcodes.py ibm_single. Stubs: SymFile (pure-Python file), '
          'PyStruct (struct.Struct -> struct.unpack), list-backed numpy stand-in for FrameChannel storage. Outside: header description text, >3 channels.',
 )
@@ -180,7 +180,7 @@ def obligations(tier):
     obs.append(Ob('bit_deinterleave_symbolic_bytes', 'ch', '2 channels, 1..2 blocks of 2 / 1..2 frames, one fully symbolic mantissa byte per block',
                   ['BIT.ReadBIT.BITFrameArray.add_block/complete', 'ReadBIT.gen_floats'], harness='C13_bit', func='check_blocks_data',
                   timeout=120 if tier == 'quick' else 900, stubs=['list-backed numpy stand-in (engine/fakenp.py) for LogPass.FrameChannel storage', 'gen_floats replaced by a 4-byte tuple generator in this obligation only (value map = the SMT obligations)']))
-    obs.append(Ob('bit_file_walk', 'ch', '1..2 log passes, 1..2 channels, 0..2 blocks (0 = header only), TIF chain with symbolic block sizes, trailing type-1 markers; the type test and two reads on one file object',
+    obs.append(Ob('bit_file_walk', 'ch', '1..3 log passes, 1..2 channels, 0..2 blocks (0 = header only), TIF chain with symbolic block sizes; file ending with both trailing type-1 markers, without the end-of-file marker, or straight after the last data block; the type test and two reads on one file object',
                   ['BIT.ReadBIT.yield_tif_blocks', 'ReadBIT.create_bit_frame_array_from_file', 'BITFrameArray'], harness='C13_bit', func='check_file',
-                  timeout=120 if tier == 'quick' else 900, stubs=['SymFile', 'PyStruct for TIF_WORD_STRUCT', 'list-backed numpy stand-in']))
+                  timeout=150 if tier == 'quick' else 900, parts=3, stubs=['SymFile', 'PyStruct for TIF_WORD_STRUCT', 'list-backed numpy stand-in']))
     return obs
